@@ -174,6 +174,12 @@ def assignments(dnames, enames, rng=None):
                         m2.pop(n, None)
                     else:
                         e2.pop(n, None)
+                        # ... and set in the environment under the other
+                        # spellings of its name only: an environment
+                        # variable's name is taken as written
+                        for sp in (n.upper(), n.lower(), n.swapcase()):
+                            if sp != n and sp not in enames:
+                                e2[sp] = "OTHER-CASE"
             yield m2, e2
 
 
